@@ -24,9 +24,21 @@ def rnd_name(rng, pool):
         name = '.'.join([rnd_label(rng) for _ in range(rng.randrange(0, 3))] + labels[k:])
     elif r < 0.45:
         name = '.'.join(rng.choice('abcdefgh') for _ in range(rng.choice([32, 40, 60, 100, 126])))     # many labels
+    elif r < 0.53:
+        # the longest legal names: 250..253 characters (253 = 255 octets on the wire)
+        total = rng.choice([253, 253, 252, 251, 250])
+        labels, left = [], total
+        while left > 0:
+            ln = min(63, left) if left <= 63 or left - 64 >= 1 else left - 2
+            ln = min(ln, rng.choice([63, 63, 62, 40])) if left - min(ln, 63) - 1 > 0 else ln
+            labels.append(''.join(rng.choice('abcdefghijklmnopqrstuvwxyz') for _ in range(ln)))
+            left -= ln + 1
+        name = '.'.join(labels)
+        if len(name) > 253 or any(len(l) == 0 or len(l) > 63 for l in labels):
+            name = '.'.join(['a' * 63, 'b' * 63, 'c' * 63, 'd' * 61])
     else:
         name = '.'.join(rnd_label(rng) for _ in range(rng.randrange(1, 6)))
-    while len(name) > 250:
+    while len(name) > 253:
         name = name.split('.', 1)[1]
     pool.append(name)
     return name
